@@ -343,6 +343,10 @@ func (p *parameterBuilder) buildFromStruct(decl *entityDecl, tpe *types.Struct, 
 		if err != nil {
 			return err
 		}
+		if len(afld.Names) > 1 && name == afld.Names[0].Name {
+			// `A, B string`: one declaration, several fields, each under its own name
+			name = fld.Name()
+		}
 		if ignore {
 			continue
 		}
